@@ -95,6 +95,12 @@ def timer_discipline(ctx, a, cls, regs=TIMED, r_cancel="R-CANCEL", r_arm="R-ARM"
 
 def check(ctx):
     a = ctx.a
+    # "a single retry timer, never a second, stale one": timers are cancelled through the registry entry they belong to, so an entry must not
+    # be overwritten while its request is unfinished - which is what happens when the allocator hands out an identifier still in use
+    from .common import run_premise
+    run_premise(ctx, "C17", "R-IDS", "identifiers", "an identifier names at most one unfinished exchange",
+                "a request registered under the identifier of an unfinished one overwrites its entry: the first request's retry timer can no "
+                "longer be reached by an acknowledgement, a loss or a purge and keeps writing for ever")
     caps, pm, _ = capabilities(a)
     n_unreg = n_arm = 0
     for cls in a.protos[1:]:
